@@ -192,16 +192,26 @@ fn alloc(opt: &mut Optimizer, layers: usize, filters: usize, rk: Rk) {
 
 /// (a) the k-step result equals the documented equations applied k times
 pub fn rule_case(kind: Kind, rk: Rk, steps: Vec<i32>) -> Case {
+    rule_case_h(kind, rk, steps, false)
+}
+
+/// `closed_end`: weight decay and dampening sit at the closed end of their ranges — exactly 0.0, a valid setting (no decay /
+/// no dampening) and not one of the "0 means default" parameters (learning rate, momentum, betas, epsilon, alpha)
+pub fn rule_case_h(kind: Kind, rk: Rk, steps: Vec<i32>, closed_end: bool) -> Case {
     let st: Vec<String> = steps.iter().map(|s| s.to_string()).collect();
     Case {
-        id: format!("C03/rule/{}/{}/steps{}", kind.tag(), rk.tag(), st.join("-")),
+        id: format!("C03/rule/{}/{}/steps{}{}", kind.tag(), rk.tag(), st.join("-"), if closed_end { "/decay0-dampening0" } else { "" }),
         property: "C03",
         family: kind.family(),
         class: "rule".into(),
         no_ties: false,
         max_paths: 64,
         run: Box::new(move |ctx| {
-            let h = sym_hyper(ctx);
+            let mut h = sym_hyper(ctx);
+            if closed_end {
+                h.decay = lit(0.0);
+                h.dampening = lit(0.0);
+            }
             let mut opt = build(kind, &h);
             alloc(&mut opt, 1, 1, rk);
             let n = rk.n();
@@ -554,6 +564,14 @@ pub fn cases(tier: Tier, seed: u64) -> Vec<Case> {
         }
         out.push(rank_case(kind));
         out.push(slot_case(kind));
+        // decay / dampening exactly 0 where the kind takes them
+        let takes = matches!(kind, Kind::SGD { decay: true } | Kind::SGDM { decay: true, .. } | Kind::Adam { decay: true } | Kind::AdamW | Kind::RMSprop { decay: true, .. });
+        if takes {
+            out.push(rule_case_h(kind, ranks[(ki + seed as usize) % 3], vec![1, 2], true));
+            if full {
+                out.push(rule_case_h(kind, ranks[(ki + 1 + seed as usize) % 3], vec![2, 5], true));
+            }
+        }
     }
     for kind in [Kind::SGDM { decay: true, dampening: true }, Kind::Adam { decay: true }, Kind::RMSprop { decay: true, momentum: true, centered: true }] {
         out.push(network_slots_case(kind));
